@@ -14,7 +14,11 @@ struct KernelLog { std::vector<std::pair<int, int>> targets; };
 
 struct ScriptedKernel {
     KernelLog* log; Rng* rng; int rows, cols;
-    template <class G> std::tuple<int, int> operator()(G&, int row, int col) {
+    // "real kernel" variant: the kernel Model would build by default (create_dynamic_kernel from the Config:
+    // natural radial or deterministic kernel), called for real; its results are logged and become the model's targets
+    std::shared_ptr<DispersalKernel<ScriptedEngine>> real;
+    template <class G> std::tuple<int, int> operator()(G& g, int row, int col) {
+        if (real) { auto t = (*real)(g, row, col); log->targets.emplace_back(std::get<0>(t), std::get<1>(t)); return t; }
         int r, c, k = rng->in(0, 99);
         if (k < 60) { r = rng->in(0, rows - 1); c = rng->in(0, cols - 1); }
         else if (k < 75) { r = row; c = col; }
@@ -28,9 +32,12 @@ struct ScriptedKernel {
 };
 
 struct KFactory {
-    KernelLog* log; Rng* rng;
-    ScriptedKernel operator()(const Config& config, const IRaster&, const Network<int>&) const {
-        return ScriptedKernel{log, rng, config.rows, config.cols};
+    KernelLog* log; Rng* rng; bool use_real = false;
+    ScriptedKernel operator()(const Config& config, const IRaster& dispersers, const Network<int>& network) const {
+        ScriptedKernel k{log, rng, config.rows, config.cols, nullptr};
+        if (use_real)
+            k.real = std::make_shared<DispersalKernel<ScriptedEngine>>(create_dynamic_kernel<ScriptedEngine, IRaster, int>(config, dispersers, network));
+        return k;
     }
 };
 
@@ -77,14 +84,19 @@ static void model_case_impl(Case& c, int l0pass, std::vector<std::string>* snaps
     int pestn = odd2p20(rng); config.establishment_probability = pestn / 1048576.0;
     int rr4 = rng.in(0, 8); config.reproductive_rate = rr4 / 4.0;
     int dir = rng.in(0, 7);
-    bool overpop_uniform = rng.coin(30);  // the natural kernel type only drives the overpopulation kernel here (the spread kernel is injected)
+    bool overpop_uniform = rng.coin(30);  // (not const: the real-kernel variants override it) the natural kernel type only drives the overpopulation kernel here (the spread kernel is injected)
     // third variant: a radial natural kernel type with dispersal_stochasticity off, i.e. the overpopulation move goes
     // through the DeterministicDispersalKernel member of the switch kernel (3x3 window: Cauchy, scale 5, 30 m cells)
     bool overpop_detradial = !overpop_uniform && rng.coin(25);
-    config.natural_kernel_type = overpop_uniform ? "uniform" : overpop_detradial ? "cauchy" : "deterministic neighbor"; config.natural_direction = overpop_detradial ? "none" : DIRS[dir];
-    config.natural_scale = overpop_detradial ? 5 : 1; config.natural_kappa = 0; config.anthro_kernel_type = "cauchy"; config.anthro_scale = 1;
+    // real-kernel variants (not in the L0 differential): 1 = deterministic Cauchy kernel with a 3x3 window for spread
+    // and overpopulation; 2 = stochastic exponential radial kernel (scale 20 m... cells are 30 m) for both
+    int realk = (l0pass == 0 && rng.coin(22)) ? rng.in(1, 2) : 0;
+    if (realk) { overpop_uniform = false; overpop_detradial = realk == 1; }
+    config.natural_kernel_type = realk == 2 ? "exponential" : overpop_uniform ? "uniform" : overpop_detradial ? "cauchy" : "deterministic neighbor"; config.natural_direction = (overpop_detradial || realk) ? "none" : DIRS[dir];
+    config.natural_scale = realk == 2 ? 20 : overpop_detradial ? 5 : 1;
+    stats.add(realk == 0 ? "kernel_injected_scripted" : realk == 1 ? "kernel_real_deterministic" : "kernel_real_stochastic_radial"); config.natural_kappa = 0; config.anthro_kernel_type = "cauchy"; config.anthro_scale = 1;
     config.anthro_direction = "none"; config.use_anthropogenic_kernel = false; config.dispersal_percentage = 0.9;
-    config.dispersal_stochasticity = !overpop_detradial;
+    config.dispersal_stochasticity = !overpop_detradial;   // realk == 2: stochastic; realk == 1: deterministic
     stats.add(overpop_uniform ? "overpop_kernel_uniform" : overpop_detradial ? "overpop_kernel_deterministic_radial" : "overpop_kernel_neighbor");
     // for one host both arrival behaviours are documented to give identical results
     bool land = rng.coin(30); if (land) config.set_arrival_behavior("land");
@@ -159,7 +171,7 @@ static void model_case_impl(Case& c, int l0pass, std::vector<std::string>* snaps
         }
     }
     config.create_pest_host_table_from_parameters(1);
-    KernelLog klog; KFactory factory{&klog, &rng};
+    KernelLog klog; KFactory factory{&klog, &rng, realk != 0};
     TModel model(config, factory);
     IRaster dispersers(rows, cols, 0), established(rows, cols, 0);
     std::vector<std::tuple<int, int>> outside;
@@ -261,7 +273,7 @@ static void model_case_impl(Case& c, int l0pass, std::vector<std::string>* snaps
             out << "\n";
             outside_seen = outside.size(); stats.add("dispersers_total", (long)klog.targets.size());
         } else if (a == "overpopulation") {
-            out << "hp.overpop " << rat64(thr64) << " " << rat64(leave64) << " " << (overpop_uniform ? std::string("U U") : overpop_detradial ? std::string("D D") : std::to_string(DROW[dir]) + " " + std::to_string(DCOL[dir])) << " => - " << h.snapshot() << " |";
+            out << "hp.overpop " << rat64(thr64) << " " << rat64(leave64) << " " << (realk == 2 ? std::string("R R") : overpop_uniform ? std::string("U U") : overpop_detradial ? std::string("D D") : std::to_string(DROW[dir]) + " " + std::to_string(DCOL[dir])) << " => - " << h.snapshot() << " |";
             for (size_t k = outside_seen; k < outside.size(); k++) out << " " << std::get<0>(outside[k]) << "," << std::get<1>(outside[k]);
             out << "\n"; outside_seen = outside.size();
         } else if (a == "movement") {
